@@ -281,3 +281,13 @@ func (r *Replayer) Replay(sub sse.Subscription) error {
 func PreInit(j *sse.Joe) {
 	_ = j.Publish(Msg("init", "init"), []string{"_init"})
 }
+
+// PreInitFor is PreInit for a Joe whose replayer stores messages: the message is one the replayer rejects
+// (with an ID for automatic IDs, without one for manual IDs), so the buffer stays empty.
+func PreInitFor(j *sse.Joe, autoIDs bool) {
+	if autoIDs {
+		_ = j.Publish(Msg("init", "init"), []string{"_init"})
+	} else {
+		_ = j.Publish(Msg("init", ""), []string{"_init"})
+	}
+}
